@@ -79,7 +79,6 @@ class BaseValidator:
         except TypeError as e:
             raise ValidationError(str(e)) from e
 
-    @ft.lru_cache(None)
     def signature(self, method: MethodType, exclude: Tuple[str, ...]) -> inspect.Signature:
         """
         Returns method signature.
@@ -89,10 +88,21 @@ class BaseValidator:
         :returns: signature
         """
 
+        # a class-based view yields a new bound method for every request: cache by the underlying function,
+        # otherwise every view instance (and the request context it holds) is retained by the cache forever
+        func = getattr(method, '__func__', method)
+        return self._signature(func, exclude, func is not method)
+
+    @ft.lru_cache(None)
+    def _signature(self, method: MethodType, exclude: Tuple[str, ...], bound: bool) -> inspect.Signature:
         signature = inspect.signature(method)
 
+        parameters = list(signature.parameters.values())
+        if bound:
+            parameters = parameters[1:]
+
         method_parameters: List[inspect.Parameter] = []
-        for param in signature.parameters.values():
+        for param in parameters:
             if param.name not in exclude and not self._exclude_param(param.name, param.annotation, param.default):
                 method_parameters.append(param)
 
